@@ -40,6 +40,7 @@ func c14(r *core.Run) {
 	r.Rule("C14/R1", "quorum gate: every acting effect (proof refresh, prover removal, form deletion) is on all paths behind Cmp(count >= Param(AttestMinToPass)) with direct operands and behind Flag(signer matched)=true; all effects behind Found(form)=true")
 	r.Rule("C14/R2", "counting: count is a phi incremented by the constant 1 only under the element's Complete flag; the matched flag and Complete:=true are set only under Eq(element.Provider, signer)=true")
 	r.Rule("C14/R3", "consumed: every path through an acting effect deletes the form, with the key arguments it was loaded by")
+	r.Rule("C14/R5", "the acting effect concerns the prover named on the form: the proof refreshed / the prover removed is selected by msg.Prover or form.Prover and never by the signer")
 	r.Rule("C14/R4", "form construction: the form write is behind Found(form)=false, ErrNil(prover lookup), Found(provider) and Cmp(len(candidates) >= Param(AttestFormSize)); entries ⊵ the filtered active-provider list and no message field")
 	hs, err := p.Handlers()
 	if err != nil {
@@ -122,6 +123,55 @@ func c14(r *core.Run) {
 			} else {
 				r.Violation("C14/R1", us.key+":"+g.name, p.InstrPos(u[0].Effect.Instr), "an effect is reachable without passing "+g.name+": "+p.DescribeEffect(u[0].Effect))
 			}
+		}
+		// ---- R5 the acting effect concerns the form's prover, never the signer
+		for _, e := range acting {
+			call, ok := e.Instr.(ssa.CallInstruction)
+			if !ok || effHas(e, "Delete", us.formPrefix) {
+				continue
+			}
+			// string-typed inputs that select whose proof is touched: arguments of this call, and of the lookup whose
+			// result is written (proof, err := deal.GetProver(ctx, k, <who>))
+			var who []ssa.Value
+			var visit func(v ssa.Value, depth int)
+			seenV := map[ssa.Value]bool{}
+			visit = func(v ssa.Value, depth int) {
+				if v == nil || seenV[v] || depth > 4 {
+					return
+				}
+				seenV[v] = true
+				switch x := v.(type) {
+				case *ssa.UnOp:
+					visit(x.X, depth+1)
+				case *ssa.Extract:
+					visit(x.Tuple, depth+1)
+				case *ssa.Call:
+					for _, a := range dataArgs(x) {
+						if a.Type().String() == "string" {
+							who = append(who, a)
+						}
+					}
+				}
+			}
+			for _, a := range dataArgs(call) {
+				if a.Type().String() == "string" {
+					who = append(who, a)
+				} else {
+					visit(a, 0)
+				}
+			}
+			okWho := len(who) > 0
+			detail := ""
+			for _, w := range who {
+				wp := p.ResolveToEntry(p.ProvAt(w, "", call), h.Fn)
+				fs := p.MsgFields(wp, h)
+				fromForm := wp.HasStore(us.formPrefix, ".Prover")
+				if !(fromForm || (len(fs) == 1 && fs[0] == "Prover")) || p.HasMsgField(wp, h, "Creator") {
+					okWho = false
+					detail = wp.String()
+				}
+			}
+			r.Check(okWho, "C14/R5", us.key+":acts-on-form-prover:"+effKinds(e), p.InstrPos(call), "the proof touched is selected by the form's Prover (msg.Prover / form.Prover), not by the signer", "the quorum acts on a proof record selected by something other than the form's prover (e.g. the attesting signer): "+detail)
 		}
 		// ---- R2 counting
 		if isPhi {
@@ -379,3 +429,11 @@ func c14Counting(r *core.Run, key string, fn *ssa.Function, count *ssa.Phi, h *c
 }
 
 func isBoolType(v ssa.Value) bool { return v.Type().String() == "bool" }
+
+func effKinds(e *core.Effect) string {
+	set := map[string]bool{}
+	for _, o := range e.Store {
+		set[o.Kind+" "+o.Prefix] = true
+	}
+	return strings.Join(sortedKeys(set), "+")
+}
